@@ -699,16 +699,19 @@ func display(computer *ComputedStyle, _ pr.KnownProp, _value pr.CssProperty) pr.
 	float_ := computer.specified.Float
 	position := computer.specified.Position
 	if (!position.Bool && (position.String == "absolute" || position.String == "fixed")) || float_ != "none" || computer.isRootElement() {
-		if value == (pr.Display{"inline-table"}) {
-			return pr.Display{"block", "table"}
-		} else if d := value[0]; value[1] == "" && value[2] == "" && strings.HasPrefix(d, "table-") {
+		if d := value[0]; value[1] == "" && value[2] == "" && strings.HasPrefix(d, "table-") {
 			return pr.Display{"block", "flow"}
 		} else if d == "inline" {
 			if value.Has("list-item") {
 				return pr.Display{"block", "flow", "list-item"}
-			} else {
-				return pr.Display{"block", "flow"}
 			}
+			// the inner display type is kept (inline-table -> table, inline-flex -> flex, ...),
+			// except that an inline-block becomes a plain block
+			inner := value[1]
+			if inner == "" || inner == "flow-root" {
+				inner = "flow"
+			}
+			return pr.Display{"block", inner}
 		}
 	}
 	return value
